@@ -2,6 +2,7 @@ package simrt
 
 import (
 	"fmt"
+	"io"
 	"reflect"
 	"sort"
 	"strconv"
@@ -338,4 +339,18 @@ func TapFeed(src string, files interface{}) {
 		}
 	}
 	Tap("feed", map[string]interface{}{"src": src, "files": out})
+}
+
+// ---- runtime/pprof ----
+// The real profiler starts runtime goroutines that write to the writer on their own schedule; in a
+// world the calls only leave a marker in the file.
+
+func PprofStartCPU(w io.Writer) error {
+	_, err := w.Write([]byte("simulated cpu profile\n"))
+	return err
+}
+func PprofStopCPU() {}
+func PprofWriteHeap(w io.Writer) error {
+	_, err := w.Write([]byte("simulated heap profile\n"))
+	return err
 }
